@@ -7,6 +7,7 @@ import (
 	"go/types"
 	"os"
 	"path/filepath"
+	"regexp"
 	"sort"
 	"strings"
 
@@ -263,7 +264,7 @@ func (c *Ctx) Field(rel, typ, field string) *types.Var {
 			return st.Field(i)
 		}
 	}
-	return nil
+	return c.fieldByTypeHint(st, typ, field)
 }
 
 // FuncsInPkg lists hand-written functions of one package (incl. closures).
@@ -333,6 +334,54 @@ func (c *Ctx) PkgOfFn(fn *ssa.Function) *packages.Package {
 		if p.PkgPath == path {
 			return p
 		}
+	}
+	return nil
+}
+
+// fieldTypeHint: the type each name-anchored field has on the reference tree. When a field is renamed, Field() falls back
+// to the unique field of the struct with this type (array lengths are ignored); with two candidates the anchor stays lost.
+var fieldTypeHint = map[string]string{
+	"Dataset.partitions":      "[]*github.com/marekgalovic/anndb/storage.partition",
+	"Notificator.chans":       "map[github.com/satori/go.uuid.UUID]chan interface{}",
+	"Dataset.meta":            "*github.com/marekgalovic/anndb/protobuf.Dataset",
+	"hnswVertex.vector":       "github.com/marekgalovic/anndb/math.Vector",
+	"hnswVertex.edges":        "[]github.com/marekgalovic/anndb/index.hnswEdgeSet",
+	"Hnsw.vertices":           "[N]map[github.com/satori/go.uuid.UUID]*github.com/marekgalovic/anndb/index.hnswVertex",
+	"priorityQueue.queue":     "container/heap.Interface",
+	"Notificator.mu":          "*sync.RWMutex",
+	"badgerWAL.groupId":       "github.com/satori/go.uuid.UUID",
+	"badgerWAL.cache":         "*sync.Map",
+	"RaftGroup.raftLeaderId":  "uint64",
+	"RaftGroup.raftConfState": "*github.com/coreos/etcd/raft/raftpb.ConfState",
+	"DatasetManager.datasets": "map[github.com/satori/go.uuid.UUID]*github.com/marekgalovic/anndb/storage.Dataset",
+	"hnswVertex.metadata":     "github.com/marekgalovic/anndb/index.Metadata",
+	"hnswVertex.edgeMutexes":  "[]*sync.RWMutex",
+	"hnswVertex.deleted":      "uint32",
+	"hnswVertex.id":           "github.com/satori/go.uuid.UUID",
+	"hnswVertex.level":        "int",
+	"Hnsw.verticesMu":         "[N]*sync.RWMutex",
+	"Hnsw.entrypoint":         "unsafe.Pointer",
+	"Conn.addresses":          "map[uint64]string",
+}
+
+var arrayLenRe = regexp.MustCompile(`^\[\d+\]`)
+
+func (c *Ctx) fieldByTypeHint(st *types.Struct, typ, field string) *types.Var {
+	want, ok := fieldTypeHint[typ+"."+field]
+	if !ok {
+		return nil
+	}
+	var hit *types.Var
+	n := 0
+	for i := 0; i < st.NumFields(); i++ {
+		got := arrayLenRe.ReplaceAllString(st.Field(i).Type().String(), "[N]")
+		if got == want {
+			hit = st.Field(i)
+			n++
+		}
+	}
+	if n == 1 {
+		return hit
 	}
 	return nil
 }
